@@ -17,7 +17,7 @@ from .values import (Unsupported, SV, MNONE, MTup, MList, MDict, MFn, MCls, MNS,
                      fresh, fresh_name, const, type_of, unify_types, pack, as_sv, unify_values,
                      tuple_items, truthy, is_none, strip_opt, py_eq, py_lt, ite,
                      FAMILY_EQ_STR, FAMILY_EQ)
-from .values import MFrozen, MDictV, MEnum, MRev, MZip, MRange, MAlias
+from .values import MFrozen, MDictV, MEnum, MRev, MZip, MRange, MAlias, MSubAlias
 from .spec import FnSpec, Family, Contract
 
 NORMAL, RETURN, RAISE, BREAK, CONTINUE = 'normal', 'return', 'raise', 'break', 'continue'
@@ -300,6 +300,10 @@ class Verifier:
                 v = self.check_bound(st, v, node, name)
             if isinstance(v, MAlias):
                 return self.get_attr(st, v.obj, v.attr, node)
+            if isinstance(v, MSubAlias):
+                outer = self.ev(v.outer_expr, st)
+                srt = sort_of(outer.t)
+                return SV(v.inner_t, z3.Select(srt.vals(outer.z), pack(v.key, outer.t.k)))
             return v
         for fr in reversed(self.frames):
             if name in fr:
@@ -616,10 +620,15 @@ class Verifier:
                 if unify_types(ta, b.t.elem) is None:
                     return z3.BoolVal(False)
                 return z3.Contains(b.z, z3.Unit(pack(a, b.t.elem)))
-            if isinstance(b.t, SetT):
-                return z3.Select(b.z, pack(a, b.t.elem))
-            if isinstance(b.t, DictT):
-                return z3.Select(sort_of(b.t).dom(b.z), pack(a, b.t.k))
+            if isinstance(b.t, (SetT, DictT)):
+                kt = b.t.elem if isinstance(b.t, SetT) else b.t.k
+                nn_ = z3.BoolVal(True)
+                if isinstance(a, SV) and isinstance(a.t, OptT) and not isinstance(kt, OptT):
+                    nn_ = z3.Not(opt_is_none(a.t, a.z))     # None is not a key of a map over non-optional keys
+                    a = strip_opt(a)
+                sel = z3.Select(b.z, pack(a, kt)) if isinstance(b.t, SetT) else \
+                    z3.Select(sort_of(b.t).dom(b.z), pack(a, kt))
+                return z3.And(nn_, sel) if not z3.is_true(nn_) else sel
             if isinstance(b.t, TupT):
                 its = tuple_items(b)
                 return z3.Or(*[py_eq(a, i) for i in its]) if its else z3.BoolVal(False)
@@ -709,7 +718,9 @@ class Verifier:
             hi = self.ev(sl.upper, st) if sl.upper is not None else None
             step = self.ev(sl.step, st) if sl.step is not None else None
             return self.slice(base, lo, hi, step, st, node)
-        idx = self.nn(st, self.ev(sl, st), node, 'index')
+        idx = self.ev(sl, st)
+        if not (isinstance(base, SV) and isinstance(base.t, DictT)):
+            idx = self.nn(st, idx, node, 'index')
         return self.index(base, idx, st, node)
 
     def index(self, base, idx, st, node):
@@ -754,6 +765,9 @@ class Verifier:
                 j = simp(z3.If(i < 0, n + i, i))
                 return SV(base.t.elem, base.z[j])
             if isinstance(base.t, DictT):
+                if isinstance(idx, SV) and isinstance(idx.t, OptT) and not isinstance(base.t.k, OptT):
+                    self.may_raise(st, z3.Not(opt_is_none(idx.t, idx.z)), 'KeyError', 'None is not a key', node)
+                    idx = strip_opt(idx)
                 k = pack(idx, base.t.k)
                 srt = sort_of(base.t)
                 self.may_raise(st, z3.Select(srt.dom(base.z), k), 'KeyError', 'key may be missing', node)
@@ -979,6 +993,14 @@ class Verifier:
             if mutation and isinstance(cur, MAlias):
                 self.set_attr(st, cur.obj, cur.attr, val, node)
                 return
+            if mutation and isinstance(cur, MSubAlias):
+                outer = self.ev(cur.outer_expr, st)
+                srt = sort_of(outer.t)
+                k = pack(cur.key, outer.t.k)
+                new = srt.mk(z3.Store(srt.dom(outer.z), k, True),
+                             z3.Store(srt.vals(outer.z), k, pack(val, cur.inner_t)))
+                self.bind_target(cur.outer_expr, SV(outer.t, new), st, node, mutation=True)
+                return
             lt = self.c.locals.get(tgt.id) if not self.inline_depth else None
             if lt is not None and not isinstance(val, (SV, MU)) and val is not MNONE:
                 val = as_sv(val, lt)       # declared local type: literals become typed values
@@ -1139,6 +1161,12 @@ class Verifier:
             if isinstance(o2, SV) and isinstance(o2.t, ObjT) and s.value.attr in self.family(o2.t.family).fields:
                 st.env[s.targets[0].id] = MAlias(o2, s.value.attr)
                 return [Outcome(NORMAL, st)]
+        if len(s.targets) == 1 and isinstance(s.targets[0], ast.Name) and isinstance(s.value, ast.Call) \
+                and isinstance(s.value.func, ast.Attribute) and s.value.func.attr == 'setdefault' \
+                and isinstance(val, SV) and isinstance(val.t, DictT) and len(s.value.args) == 2:
+            # x = outer.setdefault(key, {}) : x aliases the inner dict
+            st.env[s.targets[0].id] = MSubAlias(s.value.func.value, self.ev(s.value.args[0], st), val.t)
+            return [Outcome(NORMAL, st)]
         for t in s.targets:
             self.bind_target(t, val, st, s)
         return [Outcome(NORMAL, st)]
